@@ -344,6 +344,19 @@ def decompGauss (tol : Rat) (W : Mat) (p : Nat) : Except String GaussOut := do
   let (ll, ld) ← decompSquare tol VT false
   .ok ⟨ls, ll, diag, ld⟩
 
+/-! ## The pivot hypothesis of the Gaussian decomposition -/
+
+def GOp.isPht : GOp → Bool
+  | .pht => true
+  | .rot _ => false
+
+/-- "a particle-hole transformation was needed for every row": all `N` pivots `current_matrix[k // 2, N - 1]` tested in the
+even iterations were non-zero, i.e. the returned decomposition contains `N` times `'pht'`.  This is the hypothesis under
+which every row's weight is moved from the left into the right block by its own particle-hole transformation; the known
+finding F11 is an input on which it fails (no pivot at all). -/
+def gaussAllPivots (out : GaussOut) (n : Nat) : Bool :=
+  (out.layers.map fun l => (l.filter GOp.isPht).length).sum == n
+
 /-! ## Inner products of rows (hypothesis "orthonormal rows" of the property) -/
 
 /-- `Σ_{x < n} f x` over the rationals -/
